@@ -626,7 +626,7 @@ def evaluate_sizes(nodes, warn=null_warn, _included=None):
     def evaluate_union_size(node_):
         node_.alignment = max(DISC_SIZE, node_.members and max(x.alignment for x in node_.members) or 1)
         node_.byte_size = (node_.members and max(x.byte_size for x in node_.members) or 0) + node_.alignment
-        node_.byte_size = int((node_.byte_size + node_.alignment - 1) / node_.alignment) * node_.alignment
+        node_.byte_size = (node_.byte_size + node_.alignment - 1) // node_.alignment * node_.alignment
 
     for node in nodes:
         if isinstance(node, Struct):
@@ -798,6 +798,13 @@ def validate_composability(nodes):
                     raise ModelError("union arm '%s' of %s is of dynamic type" % (member.name, node.name))
 
 
+def validate_sizes(nodes):
+    """ No object of any target can be larger than 64 bits can count (sizes beyond that also break the generators' arithmetic). """
+    for node in nodes:
+        if isinstance(node, (Struct, Union)) and node.byte_size is not None and node.byte_size >= (1 << 64):
+            raise ModelError("size of %s does not fit 64 bits" % node.name)
+
+
 def evaluate_model(nodes, warn_emitter=lambda x: None):
     validate_names(nodes)
     validate_bounds(nodes)
@@ -808,6 +815,7 @@ def evaluate_model(nodes, warn_emitter=lambda x: None):
     evaluate_stiffness_kinds(nodes)
     validate_composability(nodes)
     evaluate_sizes(nodes, warn_emitter)
+    validate_sizes(nodes)
     return nodes, constants
 
 
